@@ -158,7 +158,7 @@ def _run_variant(args):
                 elif o.status == UNDECIDED:
                     undecided.append(f"{p}:{o.key}")
         return {"id": v["id"], "outcome": "ran", "fired": sorted(set(fired)), "keys": keys[:6],
-                "undecided": undecided[:6]}
+                "undecided": undecided[:6], "not_passing": sorted(set(fired) | {u.split(":")[0] for u in undecided})}
     except Exception as e:  # noqa: BLE001
         import traceback
 
@@ -177,8 +177,8 @@ def catalogue():
             meta, patch = d / "meta.json", d / "patch.diff"
             if meta.exists() and patch.exists():
                 m = json.loads(meta.read_text())
-                out.append({"id": f"seed-{d.name}", "kind": "patch", "patch": str(patch),
-                            "props": m.get("detected_by") or m.get("undecided_by") or [m["property"]],
+                out.append({"id": f"seed-{d.name}", "kind": "patch", "patch": str(patch), "own": m["property"],
+                            "props": sorted(set((m.get("detected_by") or m.get("undecided_by") or []) + [m["property"]])),
                             "expect": "fire" if m.get("detected_by") else "no-pass" if m.get("undecided_by") else "miss-ok",
                             "why": m.get("summary", "")})
     refs = VERIF / "refactors"
@@ -231,6 +231,11 @@ def run(props_filter=None, ids=None, jobs=None):
                 row["ok"] = bool(r["fired"]) or bool(r["undecided"])
             else:
                 row["ok"] = True
+            if row["ok"] and v.get("own") and v["own"] in props and expect in ("fire", "no-pass"):
+                # the check of the property the change was written against must not pass (REFUTED or UNDECIDED)
+                row["ok"] = v["own"] in r.get("not_passing", [])
+                if not row["ok"]:
+                    row["why"] = f"the check of its own property {v['own']} passes"
             if not row["ok"]:
                 miss += 1
         elif r["outcome"] == "error":
